@@ -12,6 +12,7 @@
 import SSEPyVerif.Model.Schemes.Wire
 import SSEPyVerif.Proofs.Schemes.ChainCfg
 import SSEPyVerif.Proofs.Schemes.ANSS16Shape
+import SSEPyVerif.Proofs.Schemes.SSE1Complete
 namespace SSEPy.C03
 open SSEPy.Sch
 
@@ -205,5 +206,64 @@ theorem SSE2.key_roundtrip (cfg : SSE2Cfg) (t t' : Tape) (a b : Bytes) (h : SSE2
         simp only at h
         cases h
         simp [SSE2Cfg.wire, Chain.takeBytes_len h1, Chain.takeBytes_len h2]
+
+/-- PiPtr: a token is two PRF outputs; with `prf_f_output_length = param_lambda` (what a working configuration declares —
+    K1 is used as a PRF key of `param_lambda` bytes) both have the parser's width -/
+theorem PiPtr.token_roundtrip (cfg : PiPtrCfg) (lv : Leaves) (hl : LeafLaws lv) (hh : cfg.prfF.hashLen = 20)
+    (hout : cfg.prfF.outputLength = cfg.lambda) (K w K1 K2 : Bytes) (h : PiPtr.token cfg lv K w = .ok (K1, K2)) :
+    wireDeser (cfg.wire.token.getD []) (wireSer [K1, K2]) = .ok [K1, K2] := by
+  apply wire_roundtrip
+  simp only [PiPtr.token, bind, Except.bind] at h
+  split at h
+  · cases h
+  · rename_i a ha
+    split at h
+    · cases h
+    · rename_i b hb
+      simp only [pure, Except.pure] at h
+      cases h
+      have la := (prf_ok cfg.prfF lv.hmac (by rw [hh]; exact hl.hmac_len) (by rw [hh]; decide) K _ K1 ha).1
+      have lb := (prf_ok cfg.prfF lv.hmac (by rw [hh]; exact hl.hmac_len) (by rw [hh]; decide) K _ K2 hb).1
+      simp [PiPtrCfg.wire, la, lb, hout]
+
+/-- Pi2Lev: the same -/
+theorem Pi2Lev.token_roundtrip (cfg : Pi2LevCfg) (lv : Leaves) (hl : LeafLaws lv) (hh : cfg.prfF.hashLen = 20)
+    (hout : cfg.prfF.outputLength = cfg.lambda) (K w K1 K2 : Bytes) (h : Pi2Lev.token cfg lv K w = .ok (K1, K2)) :
+    wireDeser (cfg.wire.token.getD []) (wireSer [K1, K2]) = .ok [K1, K2] := by
+  apply wire_roundtrip
+  simp only [Pi2Lev.token, bind, Except.bind] at h
+  split at h
+  · cases h
+  · rename_i a ha
+    split at h
+    · cases h
+    · rename_i b hb
+      simp only [pure, Except.pure] at h
+      cases h
+      have la := (prf_ok cfg.prfF lv.hmac (by rw [hh]; exact hl.hmac_len) (by rw [hh]; decide) K _ K1 ha).1
+      have lb := (prf_ok cfg.prfF lv.hmac (by rw [hh]; exact hl.hmac_len) (by rw [hh]; decide) K _ K2 hb).1
+      simp [Pi2LevCfg.wire, la, lb, hout]
+
+/-- SSE-1: a token is `(π_K3(w), f_K2(w))` — a label of exactly `param_l` bytes (π is the bit PRP on `8·l` bits) and a mask
+    of `param_k + ⌈log2 s / 8⌉` bytes (the PRF's declared output length): the two widths of the token parser, for every
+    accepted configuration -/
+theorem SSE1.token_roundtrip (raw : RawCfg) (cfg : SSE1Cfg) (hcfg : SSE1.cfgBuild raw = .ok cfg) (lv : Leaves)
+    (hl : LeafLaws lv) (K1 K2 K3 K4 w gamma eta : Bytes) (h : SSE1.token cfg lv [K1, K2, K3, K4] w = .ok (gamma, eta)) :
+    wireDeser (cfg.wire.token.getD []) (wireSer [gamma, eta]) = .ok [gamma, eta] := by
+  have hu := SSE1.cfgBuild_usable cfg raw hcfg
+  apply wire_roundtrip
+  simp only [SSE1.token, bind, Except.bind] at h
+  split at h
+  · cases h
+  · rename_i g hg
+    split at h
+    · cases h
+    · rename_i e he
+      simp only [pure, Except.pure] at h
+      cases h
+      have lg := SSE1.pi_len cfg lv hl.hmac_len (by have := hu.lpos; omega) K3 w gamma hg
+      have le := (prf_ok cfg.prfF lv.hmac (by rw [hu.fHash]; exact hl.hmac_len) (by rw [hu.fHash]; decide) K2 _ eta he).1
+      have : cfg.prfF.outputLength.toNat = cfg.k.toNat + cfg.log2sBytes := by rw [hu.fOut]; have := hu.kpos; omega
+      simp [SSE1Cfg.wire, lg, le, this]
 
 end SSEPy.C03
